@@ -376,7 +376,7 @@ KERN_THEOREMS = {'kernel_dense_eq', 'kernel_sparse_eq', 'kernel_dispatch_eq'}
 
 LAY_THEOREMS = {'lay_complement_eq', 'lay_vee_eq', 'lay_dual_eq', 'lay_involutions_eq'}
 
-NUMBA_THEOREMS = {'nb_add_eq', 'nb_sub_eq', 'nb_mul_eq', 'nb_xor_eq', 'nb_or_eq', 'nb_invert_eq', 'nb_neg_eq', 'nb_pos_eq', 'nb_pow_eq'}
+NUMBA_THEOREMS = {'nb_add_eq', 'nb_sub_eq', 'nb_mul_eq', 'nb_xor_eq', 'nb_or_eq', 'nb_invert_eq', 'nb_neg_eq', 'nb_pos_eq', 'nb_pow_eq', 'nb_call_eq', 'nb_reuse_eq'}
 
 SERIES_THEOREMS = {'series_sin_eq', 'series_sinh_eq', 'series_cos_eq', 'series_cosh_eq'}
 
@@ -392,7 +392,7 @@ TRANSLATORS = [   # (script, theorems it generates (None = everything else), mod
     ('methods2lean.py', METH_THEOREMS, ['Proofs.Invol', 'Proofs.Graded', 'Proofs.Blade', 'Proofs.InvProps']),
     ('kernels2lean.py', KERN_THEOREMS, ['Model']),
     ('layout2lean.py', LAY_THEOREMS, ['Model']),
-    ('numba2lean.py', NUMBA_THEOREMS, ['Model']),
+    ('numba2lean.py', NUMBA_THEOREMS, ['Model', 'Proofs.NumbaEq']),
     ('series2lean.py', SERIES_THEOREMS, ['Model']),
     ('parser2lean.py', PARSER_THEOREMS, ['Model']),
     ('misc2lean.py', MISC_THEOREMS, ['Model', 'Proofs.BladeMapP', 'Proofs.Recip']),
